@@ -11,70 +11,156 @@ Proof.
   apply Z.leb_le in H1. apply Z.ltb_lt in H2. apply wrap64_id. lia.
 Qed.
 
-(* the compile-time value of a constant expression is its run-time value *)
-Lemma cval_sound : forall e v, cval e = Some v -> forall en, eval en e = VInt v.
-Proof.
-  induction e; intros v H en; cbn [cval] in H; try discriminate.
-  - injection H as <-. reflexivity.
-  - destruct (cval e) as [v0|]; [|discriminate]. injection H as <-.
-    cbn [eval]. rewrite (IHe _ eq_refl). reflexivity.
-  - destruct (cval e) as [v0|]; [|discriminate]. injection H as <-.
-    cbn [eval]. rewrite (IHe _ eq_refl). reflexivity.
-  - destruct (cval e1) as [x|]; [|discriminate]. destruct (cval e2) as [y|]; [|discriminate].
-    cbn [eval]. rewrite (IHe1 _ eq_refl), (IHe2 _ eq_refl). cbn [v_arith].
-    destruct op; try discriminate.
-    + cbn [ap] in H. destruct (in_i64 (x + y)) eqn:R; [|discriminate]. injection H as <-.
-      cbn [arith_int]. rewrite (in_i64_wrap _ R). reflexivity.
-    + cbn [ap] in H. destruct (in_i64 (x - y)) eqn:R; [|discriminate]. injection H as <-.
-      cbn [arith_int]. rewrite (in_i64_wrap _ R). reflexivity.
-    + cbn [ap] in H. destruct (in_i64 (x * y)) eqn:R; [|discriminate]. injection H as <-.
-      cbn [arith_int]. rewrite (in_i64_wrap _ R). reflexivity.
-    + destruct (0 <=? y); [|discriminate]. destruct (arith_int Shl x y); try discriminate. injection H as <-. reflexivity.
-    + destruct (0 <=? y); [|discriminate]. destruct (arith_int Shr x y); try discriminate. injection H as <-. reflexivity.
-    + destruct (arith_int BAnd x y); try discriminate. injection H as <-. reflexivity.
-    + destruct (arith_int BOr x y); try discriminate. injection H as <-. reflexivity.
-    + destruct (arith_int BXor x y); try discriminate. injection H as <-. reflexivity.
-Qed.
+(* the compiler's knowledge about identifiers is right *)
+Definition agree (c : kenv) (en : env) : Prop :=
+  forall x k, klookup x c = Some k -> lookup x (e_vars en) = kval k.
 
-Lemma folded_sound : forall e e',
-  (forall en, eval en e' = eval en e) -> forall en, eval en (folded e e') = eval en e.
+Lemma agree_bind : forall c en x k v,
+  agree c en -> (forall k0, k = Some k0 -> v = kval k0) -> agree ((x, k) :: c) (bind x v en).
 Proof.
-  intros e e' H en. unfold folded. destruct (cval e) as [v|] eqn:C.
-  - cbn [eval]. symmetry. exact (cval_sound _ _ C en).
-  - apply H.
+  intros c en x k v A H y z. cbn [klookup bind e_vars lookup]. destruct (Nat.eqb y x).
+  - intros E. apply H. exact E.
+  - apply A.
+Qed.
+Lemma agree_cur : forall c en i, agree c en -> agree c (with_cur i en).
+Proof. intros c en i A. exact A. Qed.
+
+Lemma const_of_sound : forall e k en, const_of e = Some k -> eval en e = kval k.
+Proof. intros e k en H. destruct e; try discriminate; injection H as <-; reflexivity. Qed.
+Lemma kexpr_sound : forall k en, eval en (kexpr k) = kval k.
+Proof. intros [z|b|s] en; reflexivity. Qed.
+
+Definition nary_op (op : arith) : Prop := op = Add \/ op = Sub \/ op = Mul.
+
+(* the checked fold of an all-constant n-ary node is its run-time value *)
+Lemma sval_sound : forall op, nary_op op -> forall e r en, sval op e = Some r -> eval en e = VInt r.
+Proof.
+  intros op Hop. induction e; intros res en H; cbn [sval] in H; try discriminate.
+  - injection H as <-. reflexivity.
+  - destruct e2; try discriminate.
+    destruct (arith_eqb op0 op) eqn:E; [|discriminate].
+    assert (op0 = op) by (destruct op0, op; try discriminate; reflexivity). subst op0.
+    destruct (sval op e1) as [x|]; [|discriminate].
+    destruct (in_i64 (ap op x z)) eqn:R; [|discriminate]. injection H as <-.
+    cbn [eval]. rewrite (IHe1 x en eq_refl). cbn [v_arith].
+    destruct Hop as [-> | [-> | ->]]; cbn [ap arith_int] in *; rewrite (in_i64_wrap _ R); reflexivity.
+Qed.
+Lemma nary_sound : forall op e en, nary_op op -> eval en (nary op e) = eval en e.
+Proof.
+  intros op e en Hop. unfold nary. destruct (sval op e) as [r|] eqn:E; [|reflexivity].
+  cbn [eval]. symmetry. exact (sval_sound op Hop e r en E).
+Qed.
+Lemma fold_bin_sound : forall op a b en, eval en (fold_bin op a b) = eval en (EArith op a b).
+Proof.
+  intros op a b en. unfold fold_bin. destruct a; try reflexivity. destruct b; try reflexivity.
+  destruct op; try reflexivity.
+  - destruct (0 <=? z0); [|reflexivity]. destruct (arith_int Shl z z0) eqn:E; cbn [eval v_arith]; rewrite ?E; reflexivity.
+  - destruct (0 <=? z0); [|reflexivity]. destruct (arith_int Shr z z0) eqn:E; cbn [eval v_arith]; rewrite ?E; reflexivity.
+Qed.
+Lemma fold_and_sound : forall a b en, eval en (fold_and a b) = eval en (EAnd a b).
+Proof.
+  intros a b en.
+  assert (R : forall x, eval en (EAnd x (EBool false)) = VBool false)
+    by (intros x; cbn [eval truthy]; rewrite andb_false_r; reflexivity).
+  unfold fold_and. destruct a; destruct b; try reflexivity;
+    repeat match goal with x : bool |- _ => destruct x end;
+    try reflexivity; try (symmetry; apply R).
+Qed.
+Lemma fold_or_sound : forall a b en, eval en (fold_or a b) = eval en (EOr a b).
+Proof.
+  intros a b en.
+  assert (R : forall x, eval en (EOr x (EBool true)) = VBool true)
+    by (intros x; cbn [eval truthy]; rewrite orb_true_r; reflexivity).
+  unfold fold_or. destruct a; destruct b; try reflexivity;
+    repeat match goal with x : bool |- _ => destruct x end;
+    try reflexivity; try (symmetry; apply R).
+Qed.
+Lemma fold_not_sound : forall a en, eval en (fold_not a) = eval en (ENot a).
+Proof. intros a en. destruct a; reflexivity. Qed.
+Lemma fold_neg_sound : forall a en, eval en (fold_neg a) = eval en (ENeg a).
+Proof. intros a en. destruct a; reflexivity. Qed.
+Lemma fold_bitnot_sound : forall a en, eval en (fold_bitnot a) = eval en (EBitNot a).
+Proof. intros a en. destruct a; reflexivity. Qed.
+
+(* a quantifier known to be zero means `none`, also with the strict loop of
+   the tuples of boolean expressions *)
+Lemma loop_zero_none : forall s items m c,
+  loop_q QExpr 0 0 s items = loop_q QNone m c s items.
+Proof.
+  intros s items m c. induction items as [|v t IH]; [reflexivity|].
+  cbn [loop_q]. destruct (s && is_undef v); [reflexivity|].
+  destruct (truthy v); [reflexivity | exact IH].
+Qed.
+Lemma quantified_zero : forall qk q en s items,
+  quantified (zero_quant qk q) (eval en q) s items = quantified qk (eval en q) s items.
+Proof.
+  intros qk q en s items. destruct qk; try reflexivity. destruct q; try reflexivity.
+  destruct z; try reflexivity. cbn [zero_quant eval]. unfold quantified. cbn [max_count].
+  symmetry. apply loop_zero_none.
 Qed.
 
 (* folding equals run-time evaluation, for every condition and environment *)
-Theorem fold_sound : forall e en, eval en (prefold e) = eval en e.
+Theorem pfold_sound : forall e chain c en, agree c en -> eval en (pfold chain c e) = eval en e.
 Proof.
   intros e.
   apply (expr_mut
-    (fun e => forall en, eval en (prefold e) = eval en e)
-    (fun es => forall en, eval_list en (prefold_list es) = eval_list en es));
-    try (intros; cbn [prefold eval]; reflexivity).
-  - intros a IH en. cbn [prefold eval]. rewrite IH. reflexivity.
-  - intros a IHa b IHb en. cbn [prefold eval]. rewrite IHa, IHb. reflexivity.
-  - intros a IHa b IHb en. cbn [prefold eval]. rewrite IHa, IHb. reflexivity.
-  - intros a IH en. cbn [prefold eval]. rewrite IH. reflexivity.
-  - intros a IH. cbn [prefold]. apply folded_sound. intros en. cbn [eval]. rewrite IH. reflexivity.
-  - intros a IH. cbn [prefold]. apply folded_sound. intros en. cbn [eval]. rewrite IH. reflexivity.
-  - intros op a IHa b IHb. cbn [prefold]. apply folded_sound. intros en. cbn [eval]. rewrite IHa, IHb. reflexivity.
-  - intros op a IHa b IHb en. cbn [prefold eval]. rewrite IHa, IHb. reflexivity.
-  - intros op a IHa b IHb en. cbn [prefold eval]. rewrite IHa, IHb. reflexivity.
-  - intros k a IH en. cbn [prefold eval]. rewrite IH. reflexivity.
-  - intros p ak a1 IH1 a2 IH2 en. cbn [prefold eval]. rewrite IH1, IH2. reflexivity.
-  - intros p rg lo IH1 hi IH2 en. cbn [prefold eval]. rewrite IH1, IH2. reflexivity.
-  - intros p i IH en. cbn [prefold eval]. rewrite IH. reflexivity.
-  - intros p i IH en. cbn [prefold eval]. rewrite IH. reflexivity.
-  - intros qk q IHq set ak a1 IH1 a2 IH2 en. cbn [prefold eval]. rewrite IHq, IH1, IH2. reflexivity.
-  - intros qk q IHq items IHi en. cbn [prefold eval]. rewrite IHq, IHi. reflexivity.
-  - intros qk q IHq set body IHb en. cbn [prefold eval]. rewrite IHq. f_equal. apply map_ext. intros i. apply IHb.
-  - intros qk q IHq x lo IHl hi IHh body IHb en. cbn [prefold eval]. rewrite IHq, IHl, IHh.
+    (fun e => forall chain c en, agree c en -> eval en (pfold chain c e) = eval en e)
+    (fun es => forall c en, agree c en -> eval_list en (pfold_list c es) = eval_list en es));
+    try (intros; cbn [pfold eval]; reflexivity).
+  - intros x ch c en A. cbn [pfold]. destruct (klookup x c) as [k|] eqn:K; [|reflexivity].
+    rewrite kexpr_sound. cbn [eval]. symmetry. apply A. exact K.
+  - intros a IH ch c en A. cbn [pfold]. rewrite fold_not_sound. cbn [eval]. rewrite (IH None c en A). reflexivity.
+  - intros a IHa b IHb ch c en A. cbn [pfold]. rewrite fold_and_sound. cbn [eval]. rewrite (IHa None c en A), (IHb None c en A). reflexivity.
+  - intros a IHa b IHb ch c en A. cbn [pfold]. rewrite fold_or_sound. cbn [eval]. rewrite (IHa None c en A), (IHb None c en A). reflexivity.
+  - intros a IH ch c en A. cbn [pfold eval]. rewrite (IH None c en A). reflexivity.
+  - intros a IH ch c en A. cbn [pfold]. rewrite fold_neg_sound. cbn [eval]. rewrite (IH None c en A). reflexivity.
+  - intros a IH ch c en A. cbn [pfold]. rewrite fold_bitnot_sound. cbn [eval]. rewrite (IH None c en A). reflexivity.
+  - intros op a IHa b IHb ch c en A.
+    assert (N : forall o, nary_op o ->
+              eval en (match ch with
+                       | Some op0 => if arith_eqb o op0 then EArith o (pfold (Some o) c a) (pfold None c b)
+                                     else nary o (EArith o (pfold (Some o) c a) (pfold None c b))
+                       | None => nary o (EArith o (pfold (Some o) c a) (pfold None c b))
+                       end) = eval en (EArith o a b)).
+    { intros o Ho.
+      assert (E : eval en (EArith o (pfold (Some o) c a) (pfold None c b)) = eval en (EArith o a b))
+        by (cbn [eval]; rewrite (IHa (Some o) c en A), (IHb None c en A); reflexivity).
+      destruct ch as [op0|]; [destruct (arith_eqb o op0)|]; rewrite ?nary_sound by exact Ho; exact E. }
+    destruct op; cbn [pfold];
+      try (apply N; unfold nary_op; auto; fail);
+      try (rewrite fold_bin_sound); cbn [eval]; rewrite (IHa None c en A), (IHb None c en A); reflexivity.
+  - intros op a IHa b IHb ch c en A. cbn [pfold eval]. rewrite (IHa None c en A), (IHb None c en A). reflexivity.
+  - intros op a IHa b IHb ch c en A. cbn [pfold eval]. rewrite (IHa None c en A), (IHb None c en A). reflexivity.
+  - intros k a IH ch c en A. cbn [pfold eval]. rewrite (IH None c en A). reflexivity.
+  - intros p ak a1 IH1 a2 IH2 ch c en A. cbn [pfold eval]. rewrite (IH1 None c en A), (IH2 None c en A). reflexivity.
+  - intros p rg lo IH1 hi IH2 ch c en A. cbn [pfold eval]. rewrite (IH1 None c en A), (IH2 None c en A). reflexivity.
+  - intros p i IH ch c en A. cbn [pfold eval]. rewrite (IH None c en A). reflexivity.
+  - intros p i IH ch c en A. cbn [pfold eval]. rewrite (IH None c en A). reflexivity.
+  - intros qk q IHq set ak a1 IH1 a2 IH2 ch c en A. cbn [pfold eval]. unfold v_of. rewrite quantified_zero.
+    rewrite (IHq None c en A), (IH1 None c en A), (IH2 None c en A). reflexivity.
+  - intros qk q IHq items IHi ch c en A. cbn [pfold eval]. rewrite quantified_zero.
+    rewrite (IHq None c en A), (IHi c en A). reflexivity.
+  - intros qk q IHq set body IHb ch c en A. cbn [pfold eval]. rewrite (IHq None c en A). f_equal. apply map_ext. intros i.
+    apply IHb. apply agree_cur. exact A.
+  - intros qk q IHq x lo IHl hi IHh body IHb ch c en A. cbn [pfold eval]. rewrite (IHq None c en A), (IHl None c en A), (IHh None c en A).
     destruct (range_items (eval en lo) (eval en hi)) as [[l n]|]; [|reflexivity].
-    destruct (max_iter <? n); [reflexivity|]. f_equal. apply map_ext. intros k. apply IHb.
-  - intros qk q IHq x items IHi body IHb en. cbn [prefold eval]. rewrite IHq, IHi. f_equal. apply map_ext. intros v. apply IHb.
-  - intros x d IHd body IHb en. cbn [prefold eval]. rewrite IHd. apply IHb.
-  - intros e0 IHe es IHes en. cbn [prefold_list eval_list]. rewrite IHe, IHes. reflexivity.
+    destruct (max_iter <? n); [reflexivity|]. f_equal. apply map_ext. intros k.
+    apply IHb. apply agree_bind; [exact A | intros z E; discriminate].
+  - intros qk q IHq x items IHi body IHb ch c en A. cbn [pfold eval]. rewrite (IHq None c en A), (IHi c en A). f_equal. apply map_ext. intros v.
+    apply IHb. apply agree_bind; [exact A | intros z E; discriminate].
+  - intros x d IHd body IHb ch c en A. cbn [pfold eval]. rewrite (IHd None c en A). apply IHb.
+    apply agree_bind; [exact A|]. intros k E. rewrite <- (IHd None c en A). exact (const_of_sound _ _ en E).
+  - intros e0 IHe es IHes c en A. cbn [pfold_list eval_list]. rewrite (IHe None c en A), (IHes c en A). reflexivity.
+Qed.
+
+Theorem fold_sound : forall e en, eval en (prefold e) = eval en e.
+Proof. intros e en. apply pfold_sound. intros x z H. discriminate. Qed.
+
+(* the compile-time value of a constant expression is its run-time value *)
+Lemma cval_sound : forall c e v, cval c e = Some v -> forall en, agree c en -> eval en e = VInt v.
+Proof.
+  intros c e v H en A. unfold cval in H. rewrite <- (pfold_sound e None c en A).
+  destruct (pfold None c e); try discriminate. injection H as <-. reflexivity.
 Qed.
 
 (* the former witnesses of finding 10 now fold to the exact value *)
@@ -82,8 +168,18 @@ Example fold_beyond_2_53 :
   prefold (ECmp Eq (EArith Add (EInt 9007199254740993) (EInt 1)) (EInt 9007199254740994))
   = ECmp Eq (EInt 9007199254740994) (EInt 9007199254740994) /\
   (* an overflowing constant expression is not folded by the model: the compiler rejects it *)
-  cval (EArith Add (EInt 9223372036854775807) (EInt 1)) = None.
-Proof. vm_compute. split; reflexivity. Qed.
+  cval [] (EArith Add (EInt 9223372036854775807) (EInt 1)) = None /\
+  (* a `with` identifier declared with a constant is propagated *)
+  prefold (EWith 0%nat (EArith Add (EInt 1) (EInt 1)) (ECmp Eq (EArith Add (EVar 0%nat) EFilesize) (EInt 3)))
+  = EWith 0%nat (EInt 2) (ECmp Eq (EArith Add (EInt 2) EFilesize) (EInt 3)) /\
+  (* `1 + 2 + filesize` is ONE n-ary node with a non-constant operand: nothing folds;
+     `filesize + (1 + 2)` has a node of its own on the right, which folds *)
+  prefold (ECmp Eq (EArith Add (EArith Add (EInt 1) (EInt 2)) EFilesize) (EArith Add EFilesize (EArith Add (EInt 1) (EInt 2))))
+  = ECmp Eq (EArith Add (EArith Add (EInt 1) (EInt 2)) EFilesize) (EArith Add EFilesize (EInt 3)) /\
+  (* boolean constants *)
+  prefold (EOr (EAnd (EBool true) (ENot (EBool false))) (ERule 0%nat)) = EBool true /\
+  prefold (EOf QExpr (EArith Sub (EInt 2) (EInt 2)) [0%nat] ANone (EInt 0) (EInt 0)) = EOf QNone (EInt 0) [0%nat] ANone (EInt 0) (EInt 0).
+Proof. vm_compute. repeat split; reflexivity. Qed.
 
 (* the two ways the implementation evaluates `N of <set>` (range fast path
    over consecutive ids, loop otherwise) agree for EVERY N - refuted for
